@@ -23,6 +23,7 @@ PID = "C13"
 # is not bootstrapped yet; the defect fixed by fixes/01 blocked 12 s per partition (48-126 s observed). Anything above
 # 30 s is reported as a stall.
 STALL_MS = 30000
+UNREPEATED_STALLS = []
 
 
 def corpus():
@@ -390,6 +391,22 @@ def _run(res):
         if kf:
             res.known_finding(kf["description"])
             continue
+        if klass["kind"] == "routing-stall":
+            # a verdict about time: one recomputation that waits on time-outs towards a member that has just been stopped can add up
+            # to more than STALL_MS once (thorough run, seed 7: 39 s in a script with a restart under the same address, a stop and a
+            # join in a row). The defect this predicate was written for (D39) blocked on every run: a stall is reported when it
+            # shows again in one of two re-runs of the same script, otherwise it is counted.
+            again = None
+            for attempt in range(2):
+                rr = rl.run_membership([wire(clean(s))], procs=1)[s["id"]]
+                if not rr.get("env_error") and membership_stable(rr) and rr.get("max_sync_ms", 0) >= STALL_MS:
+                    again = rr
+                    break
+            if again is None:
+                UNREPEATED_STALLS.append({"scenario": s["id"], "max_sync_ms": d.get("max_sync_ms")})
+                mreported.discard(json.dumps(klass))
+                continue
+            d, msgs = again, judge_membership(s, again)
         small, dsmall, msmall = clean(s), d, msgs
         if klass["kind"] != "routing-stall" and len(s["script"]) > 1:
             def mfails(cand):
@@ -450,6 +467,7 @@ def _run(res):
     sample_d = diff[-1]
     sample_m = mem[-1]
     mem_nontrivial = sum(1 for s in mem if not mres[s["id"]].get("env_error") and any(op[0] in ("stop", "kill", "rejoin") for op in s["script"]))
+    res.coverage["unrepeated_routing_stalls"] = list(UNREPEATED_STALLS)
     res.coverage.update({
         "evaluations": len(diff) + len(mem) + len(reps),
         "distinct_nontrivial": len(nontrivial) + mem_nontrivial,
